@@ -11,4 +11,5 @@ def obligations(tier):
         for kind in (2, 3):
             for ch in (1, 2):
                 obls.append(api_step(2, it, ot, kind, ch, cap=3 if tier == 'quick' else 4))
+    obls += [api_step(4, 0, 0, 2, 2), api_step(4, 0, 0, 8, 2), lsr_obl(1, 8, 2, '2.0'), lsr_obl(1, 2, 2, '2.0')]
     return obls
